@@ -68,6 +68,68 @@ def pin(name, body):
                              f"and has to be re-validated against the new text")
 
 
+
+# ----------------------------------------------------------------------------------------------
+# calls that can fail with a system error, in the protocol classes and the acceptor
+# ----------------------------------------------------------------------------------------------
+SYS_METHODS = ["open", "close", "shutdown", "local_endpoint", "remote_endpoint", "set_option", "get_option", "bind", "listen",
+               "read_some", "write_some", "bytes_readable", "set_non_blocking", "set_non_blocking_if_needed", "connect", "accept"]
+KEYWORDS = {"if", "for", "while", "switch", "catch", "return", "sizeof"}
+
+
+def functions_of(text):
+    """(name, body start, body end) of every function-like definition (brace matched); nested ones included"""
+    res = []
+    for m in re.finditer(r"(~?[A-Za-z_]\w*)\s*\((?:[^(){};]|\((?:[^(){};]|\([^(){};]*\))*\))*\)\s*(?:const\s*)?(?::\s*[^{};]*?)?\{", text):
+        name = m.group(1)
+        if name in KEYWORDS:
+            continue
+        i = m.end() - 1
+        depth, j = 0, i
+        while j < len(text):
+            if text[j] == "{":
+                depth += 1
+            elif text[j] == "}":
+                depth -= 1
+                if depth == 0:
+                    break
+            j += 1
+        res.append((name, i, j, m.group(0)))
+    return res
+
+
+def sys_call_sites(rel, text, classes):
+    """list of (file, function, method, nothrow, checked, constructor/destructor)"""
+    fns = functions_of(text)
+    out = []
+    for m in re.finditer(r"((?:\w+\s*=\s*)?)((?:api->)?\w*socket_|acceptor_|asio_socket_|socket\(\))\s*(?:\.|->)\s*(" + "|".join(SYS_METHODS) + r")\s*\(", text):
+        # the argument list
+        k, depth = m.end() - 1, 0
+        while True:
+            if text[k] == "(":
+                depth += 1
+            elif text[k] == ")":
+                depth -= 1
+                if depth == 0:
+                    break
+            k += 1
+        args = text[m.end():k]
+        enclosing = [f for f in fns if f[1] < m.start() < f[2]]
+        if not enclosing:
+            raise Untranslatable(f"{rel}: call of {m.group(3)} outside any function")
+        # innermost named function that is not a lambda/struct helper operator
+        name, b0, b1, header = max(enclosing, key=lambda f: f[1])
+        body = text[b0:b1]
+        ecs = set(re.findall(r"booster::system::error_code\s+(\w+)\s*;", body)) | set(re.findall(r"booster::system::error_code\s*&\s*(\w+)", header))
+        last = args.split(",")[-1].strip() if args.strip() else ""
+        nothrow = last in ecs
+        # checked: the statement that follows the call tests the error code before anything else happens
+        rest = text[k + 1:b1]
+        rest = rest[rest.index(";") + 1:] if ";" in rest else ""
+        checked = nothrow and re.match(r"\s*if\s*\(\s*" + re.escape(last) + r"\s*\)", rest) is not None
+        out.append((rel, name, m.group(3), nothrow, checked, name in classes or name.startswith("~")))
+    return out
+
 # ----------------------------------------------------------------------------------------------
 # exit discipline of callbacks
 # ----------------------------------------------------------------------------------------------
@@ -867,6 +929,19 @@ def main(repo, lean):
     need(re.search(r"d->read_size\s*\+=\s*n\s*;", b), "on_content_progress read_size")
     need(re.search(r"if\s*\(\s*d->read_size\s*==\s*d->content_length\s*\)\s*\{\s*if\s*\(\s*d->read_full\s*\)", b), "on_content_progress completion test")
     need(re.search(r"d->content_length\s*=\s*conn_->env_content_length\(\)\s*;\s*if\s*\(\s*d->content_length\s*==\s*0\s*\)\s*d->ready\s*=\s*true\s*;", function_body(req, r"bool\s+request::prepare\s*\(\s*\)\s*\{")), "request::prepare")
+    w("")
+
+    # ============================================================ calls that can fail with a system error
+    w("/-! ## calls that can fail with a system error (booster::aio socket operations) in the protocol classes and the acceptor -/")
+    w("/-- (file, enclosing function, operation, the overload taking `booster::system::error_code &` is used, the statement that\nfollows tests that error code, the enclosing function is a constructor/destructor) -/")
+    acc = rd(repo, "private/cgi_acceptor.h")
+    sites = (sys_call_sites("src/http_api.cpp", http, {"http"}) + sys_call_sites("src/scgi_api.cpp", scgi, {"scgi"}) +
+             sys_call_sites("src/fastcgi_api.cpp", fcgi, {"fastcgi"}) + sys_call_sites("private/cgi_acceptor.h", acc, {"socket_acceptor"}))
+    if not any(m == "remote_endpoint" for _, _, m, _, _, _ in sites):
+        raise Untranslatable("http: no remote_endpoint call found (REMOTE_ADDR lookup)")
+    w("def sysCallSites : List (String × String × String × Bool × Bool × Bool) := [")
+    w(",\n".join(f'  ("{f}", "{fn}", "{m}", {str(nt).lower()}, {str(ck).lower()}, {str(ct).lower()})' for f, fn, m, nt, ck, ct in sites))
+    w("]")
     w("")
 
     # ============================================================ cgi_forwarder (forwarding.rules): buffer sizing
